@@ -5,6 +5,7 @@ open LemoModel LemoModel.Wal Driver
 
 structure St where
   file : Bytes := []
+  q : QState := QState.init
 
 def hexDigit (n : Nat) : Char :=
   if n < 10 then Char.ofNat (48 + n) else Char.ofNat (87 + n)
@@ -44,6 +45,46 @@ def showScan (o : ScanOut) : String :=
   | .hang => s!"hang off={o.off}"
   | .fuel => s!"model-fuel off={o.off}"
 
+def insertSorted (x : String) : List String → List String
+  | [] => [x]
+  | y :: ys => if x < y then x :: y :: ys else y :: insertSorted x ys
+
+def sortStrings (l : List String) : List String := l.foldl (fun acc x => insertSorted x acc) []
+
+def showIdx (idx : Index) : String :=
+  String.intercalate "," (sortStrings (idx.map (fun e => s!"0x{hexOf e.key}:{e.flg}:{e.cnt}")))
+
+def showQ (q : QState) : String :=
+  let w := q.wal.foldl (fun acc r => acc ++ " " ++ recStr r) ""
+  s!"idx=[{showIdx q.index}] pending={q.pending.length} wal={q.wal.length}{w}"
+
+def showVal : Option Bytes → String
+  | none => "none"
+  | some v => s!"{v.length}:{fnv32 v}"
+
+/-- what a restart after a crash now would serve, key by key, and which promised values are lost -/
+def showCrash (q : QState) : String :=
+  let keys := ((q.done ++ q.pending).map (fun r => (r.flg, r.key))).eraseDups
+  let lines := keys.map (fun k => s!"{k.1}:{hexOrDash k.2}={showVal (q.recovered k)}")
+  let lost := keys.filter (fun k => q.recovered k != q.promised k)
+  let lostS := lost.map (fun k => s!"{k.1}:{hexOrDash k.2}")
+  s!"rec=[{String.intercalate "," (sortStrings lines)}] lost=[{String.intercalate "," (sortStrings lostS)}]"
+
+def parseRec? (w : String) : Option Record :=
+  match w.splitOn ":" with
+  | [f, k, v] =>
+    match f.toNat?, parseHex? k, parseHex? v with
+    | some f, some k, some v => some ⟨f, k, v⟩
+    | _, _, _ => none
+  | _ => none
+
+def parseRecs? : List String → Option (List Record)
+  | [] => some []
+  | w :: ws =>
+    match parseRec? w, parseRecs? ws with
+    | some r, some rs => some (r :: rs)
+    | _, _ => none
+
 def step (s : St) (w : List String) : St × String :=
   match w with
   | ["headlen"] => (s, toString (encodeHead 0 0 0 0).length)
@@ -59,6 +100,19 @@ def step (s : St) (w : List String) : St × String :=
     match cut.toNat?, zt.toNat? with
     | some cut, some zt => (s, showScan (scan (s.file.take cut ++ zeros zt)))
     | _, _ => (s, "bad-op")
+  | ["qnew"] => ({ s with q := QState.init }, "ok")
+  | "qput" :: ws =>
+    match parseRecs? ws with
+    | some [r] => let (q, _) := qStep false s.q (.put r); ({ s with q := q }, showQ q)
+    | _ => (s, "bad-op")
+  | "qbatch" :: ws =>
+    match parseRecs? ws with
+    | some rs => let (q, _) := qStep false s.q (.batch rs); ({ s with q := q }, showQ q)
+    | none => (s, "bad-op")
+  | ["qdone"] =>
+    let (q, p) := qStep false s.q .done
+    ({ s with q := q }, if p then "panic " ++ showQ q else showQ q)
+  | ["qcrash"] => (s, showCrash s.q)
   | ["ctxproto"] =>
     -- the context.data protocol the model is about: `ctxCrash` never changes `main` except by the rename,
     -- and `ctxLoad` never looks at the temp file
